@@ -157,7 +157,7 @@ class C25(Check):
                    "CSRMatrix members that throw NotImplementedError (add_matrix, mul_matrix, add_scalar, mul_scalar, submatrix, "
                    "det, inv, rank, factorisations) are only required not to crash",
                    "stored explicit zeros are tolerated except at the position just set to zero"]
-    tiers = {"quick": {"examples": 6000}, "thorough": {"examples": 250000}}
+    tiers = {"quick": {"examples": 4000}, "thorough": {"examples": 120000}}
 
     def strategy(self, tier):
         return st.one_of(fam_hist(), fam_hist(), fam_hist(), fam_hist(), fam_arrays(), fam_jac())
